@@ -6,6 +6,8 @@ closure that is `CloRel`-related to the `evalCore` closure, after which `rest` m
 These instructions change the heap, so the run is split in phases (`ExecH`).
 -/
 import GluonModel.Proofs.Compile
+import GluonModel.Proofs.CompileHeap
+import GluonModel.Proofs.CompileInner
 namespace GluonModel.Proofs.Compile
 open GluonModel.Core GluonModel.Bytecode GluonModel.Compile
 
@@ -163,5 +165,520 @@ theorem step_closeClosure (fn g : Fn) (upv : List Val) (pc : Nat) (stk ws : List
       (List.replicate ws.length dummy).length = ws :=
     lastN_append _ ws _ (by simp)
   simp only [stepInstr, hlen, if_false, hidx, hcl, hl2, hpop, hlast, setAt_append_last]
+
+/-! ### Runs in phases -/
+
+theorem ExecH.trans {fn upv h pc stk h₁ pc₁ stk₁ h₂ pc₂ stk₂} :
+    ExecH fn upv h pc stk h₁ pc₁ stk₁ → ExecH fn upv h₁ pc₁ stk₁ h₂ pc₂ stk₂ →
+    ExecH fn upv h pc stk h₂ pc₂ stk₂
+  | .refl _ _ _, b => b
+  | .exec a r, b => .exec a (r.trans b)
+  | .step s r, b => .step s (r.trans b)
+
+theorem ExecH.of_exec {fn upv h pc stk pc' stk'} (a : Exec fn upv h pc stk pc' stk') :
+    ExecH fn upv h pc stk h pc' stk' := .exec a (.refl _ _ _)
+
+/-- the code of an expression ends as `Done` says, after phases that may have extended the heap
+    from `h` to `h'` -/
+def DoneH (fn : Fn) (upv : List Val) (h : Heap) (tail : Bool) (pc : Nat) (stk : List Val)
+    (pcE : Nat) (stkE : List Val) (v : Val) (h' : Heap) : Prop :=
+  ∃ pc₁ stk₁, ExecH fn upv h pc stk h' pc₁ stk₁ ∧ Done fn upv h' tail pc₁ stk₁ pcE stkE v
+
+/-- the frame fails with the arithmetic error, possibly after phases that extended the heap -/
+def ErrH (fn : Fn) (upv : List Val) (h : Heap) (pc : Nat) (stk : List Val) : Prop :=
+  ∃ h' pc₁ stk₁, ExecH fn upv h pc stk h' pc₁ stk₁ ∧ ExecErr fn upv h' pc₁ stk₁ .arith
+
+theorem DoneH.of_done {fn upv h tail pc stk pcE stkE v}
+    (d : Done fn upv h tail pc stk pcE stkE v) : DoneH fn upv h tail pc stk pcE stkE v h :=
+  ⟨pc, stk, .refl _ _ _, d⟩
+
+theorem DoneH.prepend {fn upv h tail pc stk h₁ pc₁ stk₁ pcE stkE v h'}
+    (a : ExecH fn upv h pc stk h₁ pc₁ stk₁) (d : DoneH fn upv h₁ tail pc₁ stk₁ pcE stkE v h') :
+    DoneH fn upv h tail pc stk pcE stkE v h' := by
+  obtain ⟨p, s, e, dn⟩ := d
+  exact ⟨p, s, a.trans e, dn⟩
+
+theorem ErrH.prepend {fn upv h pc stk h₁ pc₁ stk₁}
+    (a : ExecH fn upv h pc stk h₁ pc₁ stk₁) (d : ErrH fn upv h₁ pc₁ stk₁) : ErrH fn upv h pc stk := by
+  obtain ⟨h', p, s, e, er⟩ := d
+  exact ⟨h', p, s, a.trans e, er⟩
+
+theorem ErrH.of_err {fn upv h pc stk} (e : ExecErr fn upv h pc stk .arith) : ErrH fn upv h pc stk :=
+  ⟨h, pc, stk, .refl _ _ _, e⟩
+
+/-! ### Loading the captured variables, with function variables -/
+
+/-- `loadFree` at run time: the values that represent the variables (`RV`) are pushed in order -/
+theorem loadFree_run : ∀ (xs : List Sym) (b : Nat) (st : FState) (S : List (Sym × Nat))
+    (rest : List (List (Sym × Nat))), st.scopes = S :: rest →
+    ∀ (fn : Fn) (upv : List Val) (fv : List Sym) (K : Nat) (h : Heap) (Φ : List (Sym × Nat)) (ρ : Env)
+      (stk : List Val),
+      SegAt fn.instrs b (loadFree xs st).1 → Tables (loadFree xs st).2 fn fv →
+      Agree K h Φ fv upv st.scopes ρ stk → (∀ x ∈ xs, (lookup ρ x).isSome = true) →
+      ∃ ws : List Val, ws.length = xs.length ∧ Exec fn upv h b stk (b + xs.length) (stk ++ ws) ∧
+        ∀ (k : Nat) (x : Sym) (w : Val), xs[k]? = some x → lookup ρ x = some w →
+          ∃ v', ws[k]? = some v' ∧ RV K h Φ x w v'
+  | [], b, st, S, rest, _ => by
+    intro fn upv fv K h Φ ρ stk _ _ _ _
+    exact ⟨[], rfl, by simpa using Exec.refl (fn := fn) (upv := upv) (h := h) b stk, by simp⟩
+  | x :: xs, b, st, S, rest, hsc => by
+    intro fn upv fv K h Φ ρ stk hseg htab hag hdom
+    obtain ⟨h1, h2, h3, h4, _⟩ := ident_spec 0 [] x false b st S rest hsc
+    obtain ⟨_, _, _, _, h5⟩ := ident_spec 0 Φ x false b st S rest hsc
+    rw [compileBody_ident] at h1 h2 h3 h4 h5
+    obtain ⟨a1, a2, a3, a4, a5, a6, _⟩ := loadFree_spec xs (b + 1) (loadIdent x st).2 S rest h1
+    have hdef : loadFree (x :: xs) st =
+        ((loadIdent x st).1 ++ (loadFree xs (loadIdent x st).2).1, (loadFree xs (loadIdent x st).2).2) := by
+      simp [loadFree]
+    rw [hdef] at hseg htab
+    have hxs := hdom x (by simp)
+    cases hlx : lookup ρ x with
+    | none => simp [hlx] at hxs
+    | some w =>
+      obtain ⟨v', hr, ex⟩ := h5 fn upv fv K h ρ stk w hseg.left (htab.of_ext a3) hag hlx
+      obtain ⟨ws, hwl, ex2, hrel⟩ := loadFree_run xs (b + 1) (loadIdent x st).2 S rest h1 fn upv fv K h Φ ρ
+        (stk ++ [v']) (hseg.right.to (by rw [h4])) htab (by rw [h1, ← hsc]; exact hag.append _)
+        (fun y hy => hdom y (by simp [hy]))
+      refine ⟨v' :: ws, by simp [hwl], (ex.trans ex2).to (by simp only [List.length_cons]; omega) (by simp), ?_⟩
+      intro k y wy hk hy
+      cases k with
+      | zero =>
+        simp only [List.getElem?_cons_zero, Option.some.injEq] at hk
+        subst hk
+        rw [hlx] at hy; cases hy
+        exact ⟨v', by simp, hr⟩
+      | succ k =>
+        simp only [List.getElem?_cons_succ] at hk ⊢
+        exact hrel k y wy hk hy
+
+/-! ### The fragment with closure creation -/
+
+/-- what is asked of one lambda binding `let f ps = body` (a one-element `Named::Recursive`,
+    possibly calling itself): parameters present and fresh, `f` not yet a function variable, the
+    body in F2 relative to the function variables in scope *and* `f` itself, and every captured
+    variable bound (`dom`: the variables in scope) -/
+def lamOk (seIdx : Nat) (Φ : List (Sym × Nat)) (dom : List Sym) (f : Sym) (ps : List Sym)
+    (body : Expr) : Bool :=
+  !ps.isEmpty && !ps.contains dummySym && decide (f ≠ dummySym) && (lookupScope Φ f).isNone &&
+  ps.all (fun a => (lookupScope ((f, ps.length) :: Φ) a).isNone) &&
+  inF ((f, ps.length) :: Φ) body &&
+  (lamR seIdx ps body).2.freeVars.all (fun x => x == f || dom.contains x)
+
+def letOk (Φ : List (Sym × Nat)) (x : Sym) (e₁ : Expr) : Bool :=
+  decide (x ≠ dummySym) && (lookupScope Φ x).isNone && inF Φ e₁
+
+/-- **F3 (partial): closure creation.** F2, preceded by any chain of lambda bindings
+    `let f ps = body in …` (bodies in F2, may call themselves and the earlier functions of the
+    chain with exact arity, capture any variables in scope) and plain bindings `let x = e₁ in …`
+    (`e₁` in F2, so it may call the functions bound before it). -/
+def inF3 (seIdx : Nat) : Expr → List (Sym × Nat) → List Sym → Bool
+  | .letRec cs rest, Φ, dom =>
+    match cs with
+    | [(f, ps, body)] =>
+      lamOk seIdx Φ dom f ps body && inF3 seIdx rest ((f, ps.length) :: Φ) (f :: dom)
+    | _ => false
+  | .letE x e₁ body, Φ, dom =>
+    inF Φ (.letE x e₁ body) || (letOk Φ x e₁ && inF3 seIdx body Φ (x :: dom))
+  | e, Φ, _ => inF Φ e
+
+inductive InF3 (seIdx : Nat) : List (Sym × Nat) → List Sym → Expr → Prop where
+  | base {Φ dom e} : inF Φ e = true → InF3 seIdx Φ dom e
+  | lam {Φ dom f ps body rest} : lamOk seIdx Φ dom f ps body = true →
+      InF3 seIdx ((f, ps.length) :: Φ) (f :: dom) rest → InF3 seIdx Φ dom (.letRec [(f, ps, body)] rest)
+  | letE {Φ dom x e₁ body} : letOk Φ x e₁ = true → InF3 seIdx Φ (x :: dom) body →
+      InF3 seIdx Φ dom (.letE x e₁ body)
+
+theorem inF3_sound (seIdx : Nat) : ∀ (e : Expr) (Φ : List (Sym × Nat)) (dom : List Sym),
+    inF3 seIdx e Φ dom = true → InF3 seIdx Φ dom e
+  | .letRec cs rest, Φ, dom, h => by
+    match cs, h with
+    | [(f, ps, body)], h =>
+      simp only [inF3, Bool.and_eq_true] at h
+      exact .lam h.1 (inF3_sound seIdx rest _ _ h.2)
+    | [], h => simp [inF3] at h
+    | _ :: _ :: _, h => simp [inF3] at h
+  | .letE x e₁ body, Φ, dom, h => by
+    simp only [inF3, Bool.or_eq_true, Bool.and_eq_true] at h
+    rcases h with h | h
+    · exact .base h
+    · exact .letE h.1 (inF3_sound seIdx body _ _ h.2)
+  | .const l, Φ, dom, h => .base (by simpa [inF3] using h)
+  | .ident x, Φ, dom, h => .base (by simpa [inF3] using h)
+  | .call f args, Φ, dom, h => .base (by simpa [inF3] using h)
+  | .data k args, Φ, dom, h => .base (by simpa [inF3] using h)
+  | .match_ s alts, Φ, dom, h => .base (by simpa [inF3] using h)
+  | .cast e, Φ, dom, h => .base (by simpa [inF3] using h)
+
+/-- what `compileBody` guarantees for an expression of F3: as `BodySpec`, but the run may extend
+    the heap (`HExt h h'`, phases `ExecH`), the enclosing function must contain the inner
+    functions the compiler registered, and the variables of `dom` must be bound -/
+def BodySpec3 (seIdx : Nat) (Φ : List (Sym × Nat)) (dom : List Sym) (e : Expr) : Prop :=
+  ∀ (tail : Bool) (b : Nat) (st : FState) (S : List (Sym × Nat)) (rest : List (List (Sym × Nat))),
+    st.scopes = S :: rest →
+    ∃ N : List (Sym × Nat),
+      (compileBody seIdx e tail b st).2.scopes = (N ++ S) :: rest ∧
+      (compileBody seIdx e tail b st).2.stackSize = st.stackSize + N.length + 1 ∧
+      Ext st (compileBody seIdx e tail b st).2 ∧
+      st.inner <+: (compileBody seIdx e tail b st).2.inner ∧
+      ∀ (K fuel : Nat), fuel ≤ K + 1 →
+      ∀ (fn : Fn) (upv : List Val) (fv : List Sym) (h : Heap) (ρ : Env) (stk : List Val),
+        SegAt fn.instrs b (compileBody seIdx e tail b st).1 →
+        Tables (compileBody seIdx e tail b st).2 fn fv →
+        (compileBody seIdx e tail b st).2.inner <+: fn.inner →
+        stk.length = st.stackSize → Agree K h Φ fv upv st.scopes ρ stk → lookup ρ dummySym = none →
+        (∀ x ∈ dom, (lookup ρ x).isSome = true) →
+        (∀ v, evalCore fuel ρ e = .ok v →
+          ∃ (h' : Heap) (L : List Val), HExt h h' ∧ L.length = N.length ∧
+            DoneH fn upv h tail b stk (b + (compileBody seIdx e tail b st).1.length) (stk ++ L) v h') ∧
+        (evalCore fuel ρ e = .error .arith → ErrH fn upv h b stk)
+
+theorem base_spec3 {seIdx : Nat} {Φ : List (Sym × Nat)} {dom : List Sym} {e : Expr}
+    (hF : inF Φ e = true) : BodySpec3 seIdx Φ dom e := by
+  intro tail b st S rest hsc
+  obtain ⟨N, h1, h2, h3, hd⟩ := body_spec seIdx Φ e hF tail b st S rest hsc
+  refine ⟨N, h1, h2, h3, by rw [inner_body seIdx Φ e hF]; exact List.prefix_refl _, ?_⟩
+  intro K fuel hK fn upv fv h ρ stk hseg htab _ hlen hag hdum _
+  obtain ⟨hok, herr⟩ := hd K fuel hK fn upv fv h ρ stk hseg htab hlen hag hdum
+  refine ⟨fun v hv => ?_, fun he => ErrH.of_err (herr he)⟩
+  obtain ⟨L, hL, dn⟩ := hok v hv
+  exact ⟨h, L, HExt.refl h, hL, DoneH.of_done dn⟩
+
+theorem Agree.bindFn {K h Φ fv upv S rest ρ stk f n v id}
+    (ha : Agree K h Φ fv upv (S :: rest) ρ stk) (hc : CloRel K h n v (.cref id)) :
+    Agree K h ((f, n) :: Φ) fv upv (((f, stk.length) :: S) :: rest) ((f, v) :: ρ)
+      (stk ++ [.cref id]) := by
+  intro y w hy
+  simp only [lookup] at hy
+  by_cases hyx : y = f
+  · simp [hyx] at hy; subst hy
+    exact Or.inl ⟨stk.length, .cref id, by simp [lookupScopes, lookupScope, hyx], by simp,
+      by simpa [RV, hyx, lookupScope] using hc⟩
+  · simp [hyx] at hy
+    have hrv : ∀ a a', RV K h Φ y a a' → RV K h ((f, n) :: Φ) y a a' := by
+      intro a a' hr
+      simpa [RV, lookupScope, hyx] using hr
+    rcases (ha.append [.cref id]) y w hy with ⟨i, v', hi, hv, hr⟩ | ⟨hn, hr⟩
+    · refine Or.inl ⟨i, v', ?_, hv, hrv _ _ hr⟩
+      simp only [lookupScopes, lookupScope, hyx, if_false] at hi ⊢
+      exact hi
+    · refine Or.inr ⟨?_, fun k hk => ?_⟩
+      · simp only [lookupScopes, lookupScope, hyx, if_false] at hn ⊢
+        exact hn
+      · obtain ⟨v', hu, hr'⟩ := hr k hk
+        exact ⟨v', hu, hrv _ _ hr'⟩
+
+theorem recEnv_single (f : Sym) (ps : List Sym) (body : Expr) (ρ : Env) :
+    recEnv [(f, ps, body)] ρ = (f, .clos [(f, ps, body)] 0 ρ) :: ρ := rfl
+
+theorem lookup_cons_ne {x f : Sym} {v : Val} {ρ : Env} (h : ¬ x = f) :
+    lookup ((f, v) :: ρ) x = lookup ρ x := by
+  simp [lookup, h]
+
+/-- **Closure creation.** The code `NewClosure; Push f; <loads>; CloseClosure` of
+    `let f ps = body in rest` allocates a heap closure related (at every fuel up to `K`) to the
+    `evalCore` closure — also when `body` calls `f` itself — after which `rest` runs with `f` as a
+    function variable. -/
+theorem lam_spec {seIdx : Nat} {Φ : List (Sym × Nat)} {dom : List Sym} {f : Sym} {ps : List Sym}
+    {body rest : Expr} (hok : lamOk seIdx Φ dom f ps body = true)
+    (ih : BodySpec3 seIdx ((f, ps.length) :: Φ) (f :: dom) rest) :
+    BodySpec3 seIdx Φ dom (.letRec [(f, ps, body)] rest) := by
+  simp only [lamOk, Bool.and_eq_true, Bool.not_eq_true', decide_eq_true_eq,
+    Option.isNone_iff_eq_none, List.all_eq_true, Bool.or_eq_true, beq_iff_eq] at hok
+  obtain ⟨⟨⟨⟨⟨⟨hps, hnd⟩, hfd⟩, hfΦ⟩, hpΦ⟩, hbF⟩, hfree⟩ := hok
+  have hp0 : ps.length ≠ 0 := by
+    cases ps with
+    | nil => simp at hps
+    | cons _ _ => simp
+  intro tail b st S rs hsc
+  have hpre_sc : (preSt st f).scopes = ((f, st.stackSize) :: S) :: rs := by
+    simp [preSt, FState.emit, FState.newStackVar, hsc, adjustSize, Instr.adjust]
+  have hpre_sz : (preSt st f).stackSize = st.stackSize + 2 := by
+    simp [preSt, FState.emit, FState.newStackVar, hsc, adjustSize, Instr.adjust]
+  have hpre_ext : Ext st (preSt st f) :=
+    (((same_emit st _).trans (same_newStackVar _ f)).trans (same_emit _ _)).ext
+  have hpre_inner : (preSt st f).inner = st.inner := by
+    simp [preSt, FState.emit, inner_newStackVar]
+  obtain ⟨l1, l2, l3, l4, _, l6, _⟩ :=
+    loadFree_spec (lamR seIdx ps body).2.freeVars (b + 2) (preSt st f) _ rs hpre_sc
+  have hpost_sc : (postSt seIdx ps body st f).scopes = ((f, st.stackSize) :: S) :: rs := by
+    show (lamLoads seIdx ps body st f).2.scopes = _
+    unfold lamLoads; rw [l1, hpre_sc]
+  have hpost_sz : (postSt seIdx ps body st f).stackSize = st.stackSize + 1 := by
+    show adjustSize (.closeClosure _) (lamLoads seIdx ps body st f).2.stackSize - _ = _
+    unfold lamLoads; rw [l2, hpre_sz]
+    simp [adjustSize, Instr.adjust]
+  have hpost_ext : Ext (lamLoads seIdx ps body st f).2 (postSt seIdx ps body st f) :=
+    ⟨List.prefix_refl _, List.prefix_refl _, List.prefix_refl _⟩
+  have hpost_inner : (postSt seIdx ps body st f).inner = st.inner ++ [lamFn seIdx ps body] := by
+    show (lamLoads seIdx ps body st f).2.inner ++ _ = _
+    unfold lamLoads; rw [l4, hpre_inner]
+  have hfi : (lamLoads seIdx ps body st f).2.inner.length = st.inner.length := by
+    unfold lamLoads; rw [l4, hpre_inner]
+  have hllen : (lamLoads seIdx ps body st f).1.length = (lamR seIdx ps body).2.freeVars.length := l6
+  obtain ⟨N', r1, r2, r3, r4, rdyn⟩ := ih tail (b + (lamCode seIdx ps body st f).length)
+    (postSt seIdx ps body st f) _ rs hpost_sc
+  have hext_all : Ext (lamLoads seIdx ps body st f).2
+      (compileBody seIdx rest tail (b + (lamCode seIdx ps body st f).length)
+        (postSt seIdx ps body st f)).2 := hpost_ext.trans r3
+  rw [compileBody_lambdaLet seIdx f ps body rest tail b st hps]
+  refine ⟨N' ++ [(f, st.stackSize)], by simpa using r1, by simp [r2, hpost_sz]; omega,
+    (hpre_ext.trans l3).trans hext_all, ?_, ?_⟩
+  · exact (hpost_inner ▸ List.prefix_append _ _ : st.inner <+: (postSt seIdx ps body st f).inner).trans r4
+  intro K fuel hK fn upv fv h ρ stk hseg htab hinn hlen hag hdum hdom
+  cases fuel with
+  | zero => simp [evalCore]
+  | succ n =>
+    simp only [evalCore, recEnv_single]
+    -- the code
+    have sL := hseg.left
+    unfold lamCode at sL
+    have iNew := sL.left.head
+    have iPush := sL.left.tail.head
+    have sLoads := sL.left.tail.tail
+    have iClose := sL.right.head
+    -- the inner function is where `NewClosure` looks for it
+    have hinner : fn.inner[(lamLoads seIdx ps body st f).2.inner.length]? = some (lamFn seIdx ps body) := by
+      rw [hfi]
+      refine prefix_getElem? (r4.trans hinn) ?_
+      rw [hpost_inner]; simp
+    -- A: NewClosure
+    have stepA : stepLocal fn upv b stk h = .next (b + 1) (stk ++ [.cref h.clos.length])
+        { h with clos := h.clos ++ [(lamFn seIdx ps body,
+            List.replicate (lamR seIdx ps body).2.freeVars.length dummy)] } := by
+      simp only [stepLocal, iNew]
+      exact step_newClosure fn _ upv b _ _ stk h hinner
+    -- B: Push f, then the captured variables (relations established over `h`)
+    have hagL : Agree K h Φ fv upv (preSt st f).scopes ((f, .cref h.clos.length) :: ρ)
+        (stk ++ [.cref h.clos.length] ++ [.cref h.clos.length]) := by
+      rw [hpre_sc, ← hlen]
+      rw [hsc] at hag
+      exact (hag.bind hfΦ).append _
+    have hdomL : ∀ x ∈ (lamR seIdx ps body).2.freeVars,
+        (lookup ((f, Val.cref h.clos.length) :: ρ) x).isSome = true := by
+      intro x hx
+      by_cases hxf : x = f
+      · simp [lookup, hxf]
+      · rw [lookup_cons_ne hxf]
+        rcases hfree x hx with h' | h'
+        · exact absurd h' hxf
+        · exact hdom x (by simpa using h')
+    obtain ⟨ws, hwl, exL, hrel⟩ := loadFree_run (lamR seIdx ps body).2.freeVars (b + 1 + 1) (preSt st f) _ rs
+      hpre_sc fn upv fv K h Φ ((f, .cref h.clos.length) :: ρ)
+      (stk ++ [.cref h.clos.length] ++ [.cref h.clos.length]) sLoads (htab.of_ext hext_all) hagL hdomL
+    have hx01 := HExt.snoc h (lamFn seIdx ps body,
+      List.replicate (lamR seIdx ps body).2.freeVars.length dummy)
+    have hx02 := HExt.snoc h (lamFn seIdx ps body, ws)
+    have exPush : Exec fn upv { h with clos := h.clos ++ [(lamFn seIdx ps body,
+            List.replicate (lamR seIdx ps body).2.freeVars.length dummy)] } (b + 1)
+        (stk ++ [.cref h.clos.length]) (b + 1 + 1)
+        (stk ++ [.cref h.clos.length] ++ [.cref h.clos.length]) :=
+      Exec.step iPush (step_push fn upv _ _ _ _ _ (by rw [Nat.add_zero, ← hlen]; simp))
+    have exB := exPush.trans (exL.hext hx01)
+    -- C: CloseClosure
+    have stepC : stepLocal fn upv (b + 1 + 1 + (lamR seIdx ps body).2.freeVars.length)
+        (stk ++ [.cref h.clos.length] ++ [.cref h.clos.length] ++ ws)
+        { h with clos := h.clos ++ [(lamFn seIdx ps body,
+            List.replicate (lamR seIdx ps body).2.freeVars.length dummy)] } =
+        .next (b + 1 + 1 + (lamR seIdx ps body).2.freeVars.length + 1) (stk ++ [.cref h.clos.length])
+          { h with clos := h.clos ++ [(lamFn seIdx ps body, ws)] } := by
+      have hi : fn.instrs[b + 1 + 1 + (lamR seIdx ps body).2.freeVars.length]? =
+          some (.closeClosure ws.length) := by
+        rw [hwl, ← iClose]
+        congr 1
+        simp [hllen]; omega
+      simp only [stepLocal, hi]
+      rw [← hwl]
+      exact step_closeClosure fn _ upv _ stk ws h
+    have exCreate : ExecH fn upv h b stk { h with clos := h.clos ++ [(lamFn seIdx ps body, ws)] }
+        (b + (lamCode seIdx ps body st f).length) (stk ++ [.cref h.clos.length]) := by
+      have : b + (lamCode seIdx ps body st f).length =
+          b + 1 + 1 + (lamR seIdx ps body).2.freeVars.length + 1 := by
+        simp [lamCode, hllen]; omega
+      rw [this]
+      exact .step stepA (.exec exB (.step stepC (.refl _ _ _)))
+    -- the new closure is related to the `evalCore` closure at every fuel up to `K`
+    have hg2 : ({ h with clos := h.clos ++ [(lamFn seIdx ps body, ws)] } : Heap).clos[h.clos.length]? =
+        some (lamFn seIdx ps body, ws) := by simp
+    have hfd' : ¬ dummySym = f := fun e => hfd e.symm
+    have hdum' : lookup ((f, Val.clos [(f, ps, body)] 0 ρ) :: ρ) dummySym = none := by
+      rw [lookup_cons_ne hfd']; exact hdum
+    have hrelK : ∀ K', K' ≤ K → CloRel K' { h with clos := h.clos ++ [(lamFn seIdx ps body, ws)] }
+        ps.length (.clos [(f, ps, body)] 0 ρ) (.cref h.clos.length) := by
+      intro K'
+      induction K' with
+      | zero =>
+        intro _
+        exact CloRel.zero _ [(f, ps, body)] 0 ρ h.clos.length _ ws f ps body hg2 rfl hp0 rfl
+      | succ K'' ihK =>
+        intro hle
+        refine closure_correct seIdx ((f, ps.length) :: Φ) [(f, ps, body)] 0 ρ f ps body rfl hbF hp0 hnd
+          (fun a ha => hpΦ a ha) K'' _ h.clos.length ws hg2 (by rw [recEnv_single]; exact hdum') ?_
+        intro x w hx k hk
+        rw [recEnv_single] at hx
+        have hxk := indexOfSym_get _ _ _ hk
+        by_cases hxf : x = f
+        · subst hxf
+          simp only [lookup, if_true, Option.some.injEq] at hx
+          subst hx
+          obtain ⟨v', hws, hr⟩ := hrel k x (.cref h.clos.length) hxk (by simp [lookup])
+          have : v' = .cref h.clos.length := by
+            have hr' := hr
+            simp only [RV, hfΦ] at hr'
+            exact hr'.symm
+          subst this
+          refine ⟨_, hws, ?_⟩
+          simp only [RV, lookupScope, if_true]
+          exact ihK (by omega)
+        · rw [lookup_cons_ne hxf] at hx
+          obtain ⟨v', hws, hr⟩ := hrel k x w hxk (by rw [lookup_cons_ne hxf]; exact hx)
+          refine ⟨v', hws, ?_⟩
+          have := (hr.mono (K' := K'') (by omega)).hext hx02
+          simpa [RV, lookupScope, hxf] using this
+    -- `rest` with `f` as a function variable
+    have hag' : Agree K { h with clos := h.clos ++ [(lamFn seIdx ps body, ws)] } ((f, ps.length) :: Φ)
+        fv upv (postSt seIdx ps body st f).scopes ((f, .clos [(f, ps, body)] 0 ρ) :: ρ)
+        (stk ++ [.cref h.clos.length]) := by
+      rw [hpost_sc, ← hlen]
+      rw [hsc] at hag
+      exact (hag.hext hx02).bindFn (hrelK K (Nat.le_refl _))
+    have hdom' : ∀ x ∈ f :: dom, (lookup ((f, Val.clos [(f, ps, body)] 0 ρ) :: ρ) x).isSome = true := by
+      intro x hx
+      by_cases hxf : x = f
+      · simp [lookup, hxf]
+      · rw [lookup_cons_ne hxf]
+        simp only [List.mem_cons, hxf, false_or] at hx
+        exact hdom x hx
+    obtain ⟨okR, errR⟩ := rdyn K n (by omega) fn upv fv _ ((f, .clos [(f, ps, body)] 0 ρ) :: ρ)
+      (stk ++ [.cref h.clos.length]) hseg.right htab hinn (by simp [hpost_sz, hlen]) hag' hdum' hdom'
+    refine ⟨fun v hv => ?_, fun he => ?_⟩
+    · obtain ⟨h3, L', hx23, hL', dn⟩ := okR v hv
+      refine ⟨h3, [.cref h.clos.length] ++ L', hx02.trans hx23, by simp [hL', Nat.add_comm], ?_⟩
+      have := DoneH.prepend exCreate dn
+      simpa [Nat.add_assoc, List.append_assoc] using this
+    · exact ErrH.prepend exCreate (errR he)
+
+/-- a plain binding inside the chain: `e₁` is F2 code (it may call the functions created so far),
+    the body goes on creating closures -/
+theorem letE_spec3 {seIdx : Nat} {Φ : List (Sym × Nat)} {dom : List Sym} {x : Sym} {e₁ body : Expr}
+    (hok : letOk Φ x e₁ = true) (ih : BodySpec3 seIdx Φ (x :: dom) body) :
+    BodySpec3 seIdx Φ dom (.letE x e₁ body) := by
+  simp only [letOk, Bool.and_eq_true, decide_eq_true_eq, Option.isNone_iff_eq_none] at hok
+  obtain ⟨⟨hx, hfx⟩, h1F⟩ := hok
+  have w1 := wrap_of_body (body_spec seIdx Φ e₁ h1F)
+  intro tail b st S rest hsc
+  obtain ⟨hs1, hz1, hx1, hd1⟩ := w1 false b st
+  have hi1 : (compileE seIdx e₁ false b st).2.inner = st.inner := inner_E seIdx Φ e₁ h1F false b st
+  have hsc' : ((compileE seIdx e₁ false b st).2.newStackVar x).scopes =
+      ((x, st.stackSize) :: S) :: rest := by
+    simp [FState.newStackVar, hs1, hsc, hz1]
+  have hz' : ((compileE seIdx e₁ false b st).2.newStackVar x).stackSize = st.stackSize + 1 := by
+    simp only [FState.newStackVar, hs1, hsc, hz1]
+  obtain ⟨N', h1, h2, hx2, hin2, h3⟩ := ih tail (b + (compileE seIdx e₁ false b st).1.length)
+    ((compileE seIdx e₁ false b st).2.newStackVar x) _ rest hsc'
+  have hx12 := (same_newStackVar (compileE seIdx e₁ false b st).2 x).ext.trans hx2
+  rw [compileBody_letE]
+  refine ⟨N' ++ [(x, st.stackSize)], by simpa using h1, by simp [h2, hz']; omega,
+    hx1.trans hx12, by rw [inner_newStackVar, hi1] at hin2; exact hin2, ?_⟩
+  intro K fuel hK fn upv fv h ρ stk hseg htab hinn hlen hag hdum hdom
+  cases fuel with
+  | zero => simp [evalCore]
+  | succ n =>
+    obtain ⟨hok1, herr1⟩ := hd1 K n (by omega) fn upv fv h ρ stk hseg.left (htab.of_ext hx12) hlen hag hdum
+    simp only [evalCore]
+    cases he1 : evalCore n ρ e₁ with
+    | error err =>
+      refine ⟨fun v hv => by simp at hv, fun he => ?_⟩
+      simp at he; subst he
+      exact ErrH.of_err (herr1 he1)
+    | ok v₁ =>
+      have ex1 := (hok1 v₁ he1).exec
+      have hag' : Agree K h Φ fv upv ((compileE seIdx e₁ false b st).2.newStackVar x).scopes
+          ((x, v₁) :: ρ) (stk ++ [v₁]) := by
+        rw [hsc', ← hlen]
+        rw [hsc] at hag
+        exact hag.bind hfx
+      have hdx : ¬ dummySym = x := fun h => hx h.symm
+      have hdum' : lookup ((x, v₁) :: ρ) dummySym = none := by
+        rw [lookup_cons_ne hdx]; exact hdum
+      have hdom' : ∀ y ∈ x :: dom, (lookup ((x, v₁) :: ρ) y).isSome = true := by
+        intro y hy
+        by_cases hyx : y = x
+        · simp [lookup, hyx]
+        · rw [lookup_cons_ne hyx]
+          simp only [List.mem_cons, hyx, false_or] at hy
+          exact hdom y hy
+      obtain ⟨hok2, herr2⟩ := h3 K n (by omega) fn upv fv h ((x, v₁) :: ρ) (stk ++ [v₁]) hseg.right htab
+        hinn (by simp [hz', hlen]) hag' hdum' hdom'
+      refine ⟨fun v hv => ?_, fun he => ?_⟩
+      · obtain ⟨h', L, hxx, hL, dn⟩ := hok2 v hv
+        refine ⟨h', [v₁] ++ L, hxx, by simp [hL, Nat.add_comm], ?_⟩
+        have := DoneH.prepend (ExecH.of_exec ex1) dn
+        simpa [Nat.add_assoc, List.append_assoc] using this
+      · exact ErrH.prepend (ExecH.of_exec ex1) (herr2 he)
+
+/-- the invariant for every expression of F3 -/
+theorem body_spec3 (seIdx : Nat) {Φ : List (Sym × Nat)} {dom : List Sym} {e : Expr}
+    (hF : InF3 seIdx Φ dom e) : BodySpec3 seIdx Φ dom e := by
+  induction hF with
+  | base h => exact base_spec3 h
+  | lam hok _ ih => exact lam_spec hok ih
+  | letE hok _ ih => exact letE_spec3 hok ih
+
+/-- what `compile` (with the final `Slide`) guarantees for F3 -/
+theorem wrap_spec3 {seIdx : Nat} {Φ : List (Sym × Nat)} {dom : List Sym} {e : Expr}
+    (hb : BodySpec3 seIdx Φ dom e) (tail : Bool) (b : Nat) (st : FState) :
+    (compileE seIdx e tail b st).2.scopes = st.scopes ∧
+    (compileE seIdx e tail b st).2.stackSize = st.stackSize + 1 ∧
+    Ext st (compileE seIdx e tail b st).2 ∧
+    st.inner <+: (compileE seIdx e tail b st).2.inner ∧
+    ∀ (K fuel : Nat), fuel ≤ K + 1 →
+    ∀ (fn : Fn) (upv : List Val) (fv : List Sym) (h : Heap) (ρ : Env) (stk : List Val),
+      SegAt fn.instrs b (compileE seIdx e tail b st).1 →
+      Tables (compileE seIdx e tail b st).2 fn fv →
+      (compileE seIdx e tail b st).2.inner <+: fn.inner →
+      stk.length = st.stackSize → Agree K h Φ fv upv st.scopes ρ stk → lookup ρ dummySym = none →
+      (∀ x ∈ dom, (lookup ρ x).isSome = true) →
+      (∀ v, evalCore fuel ρ e = .ok v →
+        ∃ h', HExt h h' ∧
+          DoneH fn upv h tail b stk (b + (compileE seIdx e tail b st).1.length) stk v h') ∧
+      (evalCore fuel ρ e = .error .arith → ErrH fn upv h b stk) := by
+  obtain ⟨N, hsc, hss, hext, hin, hdyn⟩ := hb tail b st.enterScope [] st.scopes rfl
+  have hex : (compileBody seIdx e tail b st.enterScope).2.exitScope =
+      (N.length, { (compileBody seIdx e tail b st.enterScope).2 with scopes := st.scopes }) := by
+    simp [FState.exitScope, hsc]
+  have hss' : (compileBody seIdx e tail b st.enterScope).2.stackSize = st.stackSize + N.length + 1 := by
+    simpa [FState.enterScope] using hss
+  have hsame : SameTabs (compileBody seIdx e tail b st.enterScope).2 (compileE seIdx e tail b st).2 :=
+    same_finish _
+  have hinE : (compileE seIdx e tail b st).2.inner = (compileBody seIdx e tail b st.enterScope).2.inner :=
+    inner_finish _
+  refine ⟨?_, ?_, ((same_enter st).ext.trans hext).trans hsame.ext, by rw [hinE]; exact hin, ?_⟩
+  · simp only [compileE, finishScope, hex]
+    split <;> simp [FState.emit]
+  · simp only [compileE, finishScope, hex]
+    split
+    · rename_i h0; simp [hss', h0]
+    · simp [FState.emit, adjustSize_slide, hss']
+      omega
+  · intro K fuel hK fn upv fv h ρ stk hseg htab hinn hlen hag hdum hdom
+    have hcode : (compileE seIdx e tail b st).1 =
+        (compileBody seIdx e tail b st.enterScope).1 ++ slideCode N.length := by
+      simp [compileE, finishScope, hex]
+    rw [hcode] at hseg ⊢
+    rw [hinE] at hinn
+    obtain ⟨hok, herr⟩ := hdyn K fuel (by omega) fn upv fv h ρ stk hseg.left (htab.of_ext hsame.ext) hinn
+      (by simpa [FState.enterScope] using hlen) (by simpa [FState.enterScope] using hag.enter) hdum hdom
+    refine ⟨fun v hv => ?_, herr⟩
+    obtain ⟨h', L, hxx, hL, pc₁, stk₁, exH, dn⟩ := hok v hv
+    refine ⟨h', hxx, pc₁, stk₁, exH, ?_⟩
+    by_cases h0 : N.length = 0
+    · have : L = [] := List.eq_nil_of_length_eq_zero (by omega)
+      subst this
+      simpa [slideCode, h0] using dn
+    · have hs := hseg.right
+      simp only [slideCode, h0, if_false] at hs ⊢
+      have := Exec.step (fn := fn) (upv := upv) (h := h') hs.head
+        (step_slide fn upv _ stk L v h' N.length hL)
+      exact (dn.andThen this).to (by simp [Nat.add_assoc]) rfl
 
 end GluonModel.Proofs.Compile
